@@ -230,7 +230,7 @@ func drivenAtoms(names []string) (string, map[string]bool, []map[string]bool) {
 					small = false
 				}
 			}
-			if _, ok := evalTerm(t, map[string]*big.Int{k: big.NewInt(0)}); ok && small {
+			if _, ok := evalTerm(t, map[string]*big.Int{k: big.NewInt(0)}); ok && small && lowBitsOnly(t) {
 				byDriver[k] = append(byDriver[k], a)
 			}
 		}
@@ -409,4 +409,29 @@ func atomTermOf(a string) *T {
 		}
 	}
 	return nil
+}
+
+// lowBitsOnly: the term reads its parameter only through masks, comparisons, boolean structure and table
+// lookups - no shift or arithmetic that could bring bits above the low eight into play - so that the values
+// 0..255 exhaust the joint behaviour of such atoms (a value above 255 behaves like its low byte under a mask
+// below 256 and like 255 under a comparison with a constant below 256).
+func lowBitsOnly(t *T) bool {
+	if t == nil {
+		return true
+	}
+	if t.K == "bin" {
+		switch t.Op {
+		case token.SHL, token.SHR, token.ADD, token.SUB, token.MUL, token.QUO, token.REM, token.XOR:
+			return false
+		}
+	}
+	if t.K == "conv" || t.K == "call" {
+		return false
+	}
+	for _, a := range t.Args {
+		if !lowBitsOnly(a) {
+			return false
+		}
+	}
+	return true
 }
